@@ -113,6 +113,19 @@ CHECKS = {
         note="Seams fix frame sizes (counter-based secrets, fixed clock). 'Carried' = frames the receiving interface accepted or all frames put on an up link (both conventions accepted).",
         design_ref="DESIGN.md §4 C18",
     ),
+    "C20": dict(
+        technique="complete enumeration of shipped scenarios (every schedule episode) and the generated family: independent inventory from the dict vs built object graph; trajectory digests of key-permuted / re-serialised copies on real environments",
+        text="For each of 42 scenarios (7 shipped files, every episode of the 3 schedule directories, GEN and variants with extra "
+             "interfaces, static/default routes, users, initial OFF state, listen ports, permuted probability tables) the game is built by "
+             "the real PrimaiteGame.from_config and ~800 fields per scenario are compared with an inventory derived from the dictionary: "
+             "nodes/types/initial state/durations, interfaces and addresses, gateway/DNS, links and bandwidths, routes, every ACL slot of "
+             "every list, exactly one instance per configured software with its options and listen ports, users, folders/files, agents "
+             "(action maps, reward components, settings, probability vector alignment), airspace capacities - also for the same file with "
+             "every mapping in reverse key order. The seeded 8-step trajectory of YAML-re-serialised, all-reversed and all-sorted copies "
+             "must equal the original's (a differing mapping is localised by reversing one mapping at a time).",
+        note="The order oracle compares nested observations, rewards and agent actions; the position of entries inside the flattened vector (follows the written order of e.g. monitored_traffic) is not compared.",
+        design_ref="DESIGN.md §4 C20",
+    ),
 }
 
 NOT_BUILT_REASON = "no check registered yet in this revision (model-checking harness planned in DESIGN.md §4; not claimed until it exists)"
